@@ -189,3 +189,106 @@ Proof.
   - apply IH; auto.
   - destruct Hp as [H1 H2]. apply IH; auto.
 Qed.
+
+(* on a longer input and under a larger limit a run that ended without an I/O error repeats itself *)
+Definition ext_x (x : ast) (more : list N) (lim' : nat) : ast :=
+  mk_ast (a_rest x ++ more) (a_term x) (a_n x) lim'.
+
+Lemma a_take_ext k x l x' more lim' : a_take k x = inl (l, x') -> (a_limit x <= lim')%nat ->
+  a_take k (ext_x x more lim') = inl (l, ext_x x' more lim') /\ a_limit x' = a_limit x.
+Proof.
+  unfold a_take, ext_x. cbn [a_rest a_term a_n a_limit].
+  destruct (Nat.leb k (Nat.min (a_limit x - a_n x) (List.length (a_rest x)))) eqn:E.
+  - intros H Hl. inversion H; subst l x'. clear H. cbn [a_rest a_term a_n a_limit]. apply Nat.leb_le in E.
+    replace (Nat.leb k (Nat.min (lim' - a_n x) (List.length (a_rest x ++ more)))) with true
+      by (symmetry; apply Nat.leb_le; rewrite app_length; lia).
+    rewrite firstn_app, skipn_app.
+    replace (k - List.length (a_rest x))%nat with 0%nat by lia. cbn [firstn skipn]. rewrite app_nil_r.
+    split; reflexivity.
+  - destruct (Nat.leb (a_limit x - a_n x) (List.length (a_rest x))); discriminate.
+Qed.
+
+Lemma run_ext {A} (p : P A) : okp (fun _ => True) p -> forall x s more lim', (a_limit x <= lim')%nat ->
+  match run_a p x s with
+  | ROk a x' s' => run_a p (ext_x x more lim') s = ROk a (ext_x x' more lim') s'
+  | RFail e x' s' => run_a p (ext_x x more lim') s = RFail e (ext_x x' more lim') s'
+  | RPanic w => run_a p (ext_x x more lim') s = RPanic w
+  | RIOErr _ _ _ => True
+  | ROutOfFuel => True
+  end.
+Proof.
+  induction p as [a|e|w|k IH|n k IH|k IH|k IH|s' k IH]; intros Hp x s more lim' Hl; cbn [okp run_a] in *.
+  - reflexivity.
+  - reflexivity.
+  - reflexivity.
+  - destruct (a_take 1 x) as [[l x']|e] eqn:Et; [|exact I].
+    destruct (a_take_ext 1 x l x' more lim' Et Hl) as [Ht Hl']. rewrite Ht. apply IH; [apply Hp|lia].
+  - destruct (a_take n x) as [[l x']|e] eqn:Et; [|exact I].
+    destruct (a_take_ext n x l x' more lim' Et Hl) as [Ht Hl']. rewrite Ht. apply IH; [apply Hp|lia].
+  - contradiction.
+  - apply IH; [apply Hp; exact I|exact Hl].
+  - apply IH; [apply Hp|exact Hl].
+Qed.
+
+(* ================================================================ B. one record *)
+
+(* the two counter lists of a state *)
+Definition cs (um : list (N * N)) (uf : list (N * N * N)) (s : dstate) : Prop := ds_unkm s = um /\ ds_unkf s = uf.
+
+Lemma cs_self s : cs (ds_unkm s) (ds_unkf s) s.
+Proof. split; reflexivity. Qed.
+
+Lemma pts_cs um uf s u k n ov s' : cs um uf s -> parse_time_stamp s u k n = (ov, s') -> cs um uf s'.
+Proof.
+  intros [H1 H2]. unfold parse_time_stamp. destruct (u =? 0xFFFFFFFF); [intros E; inversion E; subst; now split|].
+  destruct (k =? kind_timeutc).
+  - destruct (n =? c_fieldNumTimeStamp); intros E; inversion E; subst; now split.
+  - destruct ((ds_ts s =? 0) || (ds_ts s <? c_systemTimeMarker)); intros E; inversion E; subst; now split.
+Qed.
+
+Lemma okp_bind_get {B} (J : dstate -> Prop) (f : dstate -> P B) :
+  (forall s, J s -> okp J (f s)) -> okp J (bind get_st f).
+Proof. intros H. unfold get_st. cbn [bind okp]. exact H. Qed.
+
+Tactic Notation "okp_walk" tactic(solver) :=
+  repeat first
+    [ apply okp_bind_get
+    | apply okp_bind
+    | progress cbn [okp read_byte read_full put_st fail panic]
+    | progress cbv beta zeta
+    | match goal with
+      | |- True => exact I
+      | |- forall _, _ => intro
+      | |- _ /\ _ => split
+      | |- okp _ (match ?x with _ => _ end) => destruct x eqn:?
+      end
+    | solver ].
+
+Ltac cs_solve :=
+  match goal with
+  | H : cs ?um ?uf ?s, E : parse_time_stamp ?s _ _ _ = (_, ?s') |- cs ?um ?uf ?s' => exact (pts_cs _ _ _ _ _ _ _ _ H E)
+  | H : cs ?um ?uf ?s |- cs ?um ?uf _ =>
+      destruct H as [? ?]; split; cbn [with_file with_defs with_time with_quirk ds_unkm ds_unkf]; assumption
+  end.
+
+Ltac triv_solve := exact I.
+Ltac no_solve := fail.
+
+Lemma okp_skip_dev J : forall devs, okp J (skip_dev_fields devs).
+Proof.
+  induction devs as [|[[a sz] c] r IH]; cbn [skip_dev_fields]; [exact I|].
+  apply okp_bind; [cbn [okp read_full]; intros; exact I|intros _; exact IH].
+Qed.
+
+Lemma okp_parse_def J b : okp J (parse_definition_message b).
+Proof. unfold parse_definition_message. okp_walk no_solve. Qed.
+
+Lemma okp_add_msg um uf m : okp (cs um uf) (add_msg m).
+Proof. unfold add_msg. okp_walk cs_solve. Qed.
+
+Lemma okp_set_def um uf dm : okp (cs um uf) (set_def dm).
+Proof. unfold set_def. okp_walk cs_solve. Qed.
+
+Lemma okp_pof_listed um uf o dm known fd msgv p : get_field (dm_gmn dm) (fd_num fd) = Some p ->
+  okp (cs um uf) (parse_one_field o dm known fd msgv).
+Proof. intros Eg. unfold parse_one_field. rewrite Eg. okp_walk cs_solve. Qed.
